@@ -514,11 +514,13 @@ SmallItems ==
    It("dot", "is_some"), It("dot", "unwrap_or0"), It("dot", "into_iter"), It("dot", "count"), It("then", "idt"), It("then", "rec"),
    It("then", "e10"), It("then", "nop"), It("inspect", "nop"), It("collect", ""), It("find", "isEven"), It("fold", "addAcc"),
    It("filter_map", "half"), It("flatten", ""), It("or", "alt9")}
-Shapes == {"closure", "fnpath", "call", "block", "paren", "rettype", "macro"}
+Shapes == {"closure", "fnpath", "call", "block", "paren", "rettype", "macro", "field", "method", "index", "ref", "ifelse"}
 ShapeOps == {"map", "and_then", "filter", "then", "or_else", "map_err", "find_map", "filter_map", "partition", "fold", "try_fold", "find", "inspect"}
 Alphabet ==
   CASE Family = "plain" -> PlainItems
-    [] Family = "shapes" -> {Shaped(it, sh) : it \in {p \in PlainItems : p.op \in ShapeOps /\ p.arg \notin {"idt", "nop"}}, sh \in Shapes}
+    \* (`=> [f][0]` is excluded: a bracket right after `=>` is the collect operator `=>[]` by design)
+    [] Family = "shapes" -> {x \in {Shaped(it, sh) : it \in {p \in PlainItems : p.op \in ShapeOps /\ p.arg \notin {"idt", "nop"}}, sh \in Shapes} :
+                               ~(x.op = "and_then" /\ x.shape = "index")}
                             \cup {It("collect", ""), It("dot", "count"), It("map", "inc")}
     \* wrappers x block captures (C02 inner chains with captures, C10 exactly-once, C11 hoisting): a small alphabet, longer chains
     [] Family = "capwrap" ->
